@@ -112,6 +112,12 @@ def realize(case):
     return c
 
 
+def gen_opsched(rng, c, p=0.25):
+    """the operator gets the scheduler of the timeline as its own `scheduler=` argument and the subscription a different one"""
+    if rng.random() < p:
+        c["opsched"] = True
+
+
 def gen_scale(rng, c, p=0.3, qs=(10, 100), wall_ok=False):
     """turn a generated case into a fractional-seconds one (same unit timeline, run at 1/q second per unit)"""
     if rng.random() < p:
@@ -294,6 +300,46 @@ class guard:
         return False
 
 
+def sk(case, sched):
+    """keyword arguments for an operator that takes a scheduler: with "opsched" the operator gets the scheduler of the timeline
+    explicitly while the subscription is made with a DIFFERENT scheduler: the operator-level one has to win"""
+    return {"scheduler": sched} if case.get("opsched") else {}
+
+
+def other_scheduler(case, hist=False):
+    """the subscribe-level scheduler of an "opsched" case: a second virtual-time scheduler that is never started (a timer armed
+    on it never fires); ImmediateScheduler where the case wants inner empty() observables to complete inline"""
+    if case.get("inline"):
+        from reactivex.scheduler import ImmediateScheduler
+
+        return ImmediateScheduler.singleton()
+    if hist:
+        from reactivex.scheduler import HistoricalScheduler
+
+        return HistoricalScheduler()
+    from reactivex.testing import TestScheduler
+
+    return TestScheduler()
+
+
+def bare(obs):
+    """the same observable as a minimal implementation of the public abc.ObservableBase (not derived from Observable)"""
+    from reactivex import abc
+
+    class Bare(abc.ObservableBase):
+        def __init__(self, inner):
+            self._inner = inner
+
+        def subscribe(self, on_next=None, on_error=None, on_completed=None, *, scheduler=None):
+            return self._inner.subscribe(on_next, on_error, on_completed, scheduler=scheduler)
+
+    return Bare(obs)
+
+
+def maybe_bare(case, obs):
+    return bare(obs) if case.get("bare") and obs is not None else obs
+
+
 def recorded(msgs):
     from reactivex.testing import ReactiveTest
 
@@ -361,17 +407,19 @@ def _run_test_once(case, build, sources, subs_at, no_sched=False):
     else:
         fb = None
 
+    sub_sched = other_scheduler(case) if case.get("opsched") else sched
+
     def do_create(s, st):
-        box["o"] = build(sched, *srcs)
+        box["o"] = build(sched, srcs[0], *[maybe_bare(case, x) for x in srcs[1:]])
 
     def mk_sub(obs):
         def act(s, st):
             if no_sched:
                 disps.append(box["o"].subscribe(obs))
             elif fb is not None and obs is observers[0]:
-                disps.append(box["o"].subscribe(fb.on_next, fb.on_error, fb.on_completed, scheduler=sched))
+                disps.append(box["o"].subscribe(fb.on_next, fb.on_error, fb.on_completed, scheduler=sub_sched))
             else:
-                disps.append(box["o"].subscribe(obs, scheduler=sched))
+                disps.append(box["o"].subscribe(obs, scheduler=sub_sched))
         return act
 
     def do_dispose(s, st):
@@ -504,11 +552,13 @@ def _run_hist_once(case, build, subs_at):
     def do_create(s, st):
         box["o"] = build(sched, xs)
 
+    sub_sched = other_scheduler(case, hist=True) if case.get("opsched") else sched
+
     def mk_sub(out):
         def act(s, st):
             disps.append(box["o"].subscribe(lambda v: out.append([secs(), ["N", enc(v)]]),
                                             lambda e: out.append([secs(), ["E", fw.err_name(e)]]),
-                                            lambda: out.append([secs(), ["C"]]), scheduler=sched))
+                                            lambda: out.append([secs(), ["C"]]), scheduler=sub_sched))
         return act
 
     def do_dispose(s, st):
